@@ -283,6 +283,85 @@ func rootAlloc(addr ssa.Value) *ssa.Alloc {
 	}
 }
 
+// checkArrayOverwritten: a pooled fixed-size array (*[N]byte) still holds what its previous user left. Every use
+// that reads it (a slice of it handed to anything but a writer) must be dominated by a write that covers the whole
+// array: binary.*.PutUintNN over a slice starting at 0 with NN/8 >= N, or copy/clear of the whole array.
+func (p *poolWalk) checkArrayOverwritten(f *ssa.Function, gv ssa.Value) {
+	// the pointer to the array: the Get result asserted to *[N]T
+	var ptrs []ssa.Value
+	if refs := gv.Referrers(); refs != nil {
+		for _, r := range *refs {
+			if ta, ok := r.(*ssa.TypeAssert); ok {
+				if pt, ok := ta.AssertedType.Underlying().(*types.Pointer); ok {
+					if _, isArr := pt.Elem().Underlying().(*types.Array); isArr {
+						ptrs = append(ptrs, ta)
+					}
+				}
+			}
+		}
+	}
+	for _, ptr := range ptrs {
+		n := ptr.Type().Underlying().(*types.Pointer).Elem().Underlying().(*types.Array).Len()
+		var fullWrites []ssa.Instruction
+		type use struct {
+			in   ssa.Instruction
+			what string
+		}
+		var reads []use
+		D := DerivedSet([]ssa.Value{ptr})
+		for v := range D {
+			sl, ok := v.(*ssa.Slice)
+			if !ok || !D[sl.X] {
+				continue
+			}
+			fromZero := sl.Low == nil || isConstInt(sl.Low, 0)
+			refs := sl.Referrers()
+			if refs == nil {
+				continue
+			}
+			for _, r := range *refs {
+				ci, ok := r.(ssa.CallInstruction)
+				if !ok {
+					continue
+				}
+				name := CalleeName(ci.Common())
+				width := int64(0)
+				switch {
+				case strings.HasSuffix(name, "Endian).PutUint64"):
+					width = 8
+				case strings.HasSuffix(name, "Endian).PutUint32"):
+					width = 4
+				case strings.HasSuffix(name, "Endian).PutUint16"):
+					width = 2
+				}
+				isDst := width > 0 || ((name == "builtin.copy" || name == "builtin.clear") && len(ci.Common().Args) > 0 && ci.Common().Args[0] == ssa.Value(sl))
+				switch {
+				case width > 0 && fromZero && width >= n:
+					fullWrites = append(fullWrites, r)
+				case name == "builtin.clear" && fromZero && sl.High == nil:
+					fullWrites = append(fullWrites, r)
+				case isDst:
+					// a partial write: neither a read nor a full overwrite
+				case name == "builtin.len" || name == "builtin.cap":
+				default:
+					reads = append(reads, use{r, name})
+				}
+			}
+		}
+		for _, u := range reads {
+			covered := false
+			for _, wr := range fullWrites {
+				if dominatesInstr(wr, u.in) {
+					covered = true
+				}
+			}
+			if !covered {
+				p.bad("array-not-overwritten", fmt.Sprintf("the pooled %d-byte array is read (%s) without having been overwritten as a whole first: bytes left by its previous user become part of this call's data", n, u.what), u.in)
+			}
+		}
+	}
+}
+
 // checkLengthReset: a slice header loaded from the pooled pointer must be reset to length 0 before use.
 func (p *poolWalk) checkLengthReset(load *ssa.UnOp) {
 	vals := DerivedSet([]ssa.Value{load})
@@ -382,6 +461,7 @@ func rulePoolDiscipline(c *Check, w *World, tb *TB, rule string, fns []*ssa.Func
 			poolT := tb.Of(g.Common().Args[0]).String()
 			p := &poolWalk{c: c, w: w, tb: tb, rule: rule, top: f, site: fmt.Sprintf("Get#%d[%s]", gi, poolT), ok: true, seen: map[string]bool{}}
 			p.confine(f, []ssa.Value{gv}, true, false, 0)
+			p.checkArrayOverwritten(f, gv)
 			p.defPuts, p.dirPuts = dedupInstrs(p.defPuts), dedupInstrs(p.dirPuts)
 			// released once: a deferred Put plus any other Put, or two direct Puts one of which can follow the other,
 			// hand the same object to the pool twice — two later Gets then share it
@@ -745,6 +825,7 @@ func init() {
 			ruleNoConcurrencyPrimitives(c, w, "R11.5", fns)
 			// callers may hand the same buffers to concurrent calls: no operation writes memory reachable from its arguments
 			ruleNoParamWrites(c, w, tb, ef, "R11.6", w.ExportedAPI())
+			ruleNoCapReads(c, w, tb, "R11.7", w.ModuleFuncs(OtpPath))
 			ruleRESTStateless(c, w, tb, ef, "R11.REST", true)
 			if w.Cfg.Name == CfgNative.Name {
 				runControl(c, "R11.1", []string{"ControlWritesGlobal|write:otp.cache"}, func(sink *Check, cw *World) {
